@@ -115,13 +115,30 @@ def one_run(ctx, launch, uros, msgs, rng, k):
     gval = float(rng.choice([9.8, 9.8, 9.81, 9.6, 10.1]))
     P["sim/g"] = gval
     P["mrp/g"] = gval
-    P["sim/mag_str"] = float(rng.choice([0.1, 0.1, 0.05, 0.3]))
+    # field strength in whatever unit the user configures (0.1: the default; 5e-5: Tesla; 45: microtesla)
+    P["sim/mag_str"] = float(rng.choice([0.1, 0.1, 0.05, 0.3, 5e-5, 45.0]))
     # the order of the entries is configuration history too (parameters are set one by one before the run starts)
     keys = list(P)
     P = {k_: P[k_] for k_ in [keys[i] for i in rng.permutation(len(keys))]}
     tf = 30.0
     params = {"tf": tf, "initialize": init, "estimators": ["mrp"], "x0": np.r_[r, b], "params": P}
-    case = {"x0": np.r_[r, b], "initialize": init, **P}
+    # the initial state in the other forms a caller may legitimately use: the packaged default (x0 omitted: a list of Python
+    # ints) and a list of ints with a non-zero entry -- integer-valued, not integer-typed: the truth must still move
+    x0_form = "float_array"
+    if k == 0 and ctx.shard % 8 == 5:
+        x0_form = "default" if ctx.shard % 16 == 5 else "int_list"
+        if x0_form == "default":
+            del params["x0"]
+            r, b = np.zeros(3), np.zeros(3)
+        else:
+            params["x0"] = [0, 0, 1, 0, 0, 0]
+            r, b = np.array([0.0, 0.0, 1.0]), np.zeros(3)
+        if steep:  # convergence is claimed for these runs: keep the inclination inside the claimed range
+            incl = float(np.clip(incl, -1.0, 1.0))
+            P["sim/mag_incl"] = incl
+        flipped = steep = False
+        ctx.count("runs_with_x0_form:" + x0_form)
+    case = {"x0": np.r_[r, b], "initialize": init, "x0_form": x0_form, **P}
     g_cfg, mag_str = 9.8, 0.1  # simulator parameter defaults (read back from the params message below)
     events = []  # (kind) in order of occurrence
     rec = {"imu": [], "mag": [], "calls_accel": 0, "calls_mag": 0, "params": None}
